@@ -275,9 +275,10 @@ def run(ctx):
     enc_specs, dec_specs = [], []
     for kind in EC.KINDS:
         for i in range(n):
-            v = gen_value(ctx.rng, kind, big and i % 40 == 0)
+            # one value in 25 is drawn with the large sizes (thousands of markers, tens of thousands of waveform entries) in every tier
+            v = gen_value(ctx.rng, kind, i % 25 == 7)
             enc_specs.append((kind, "encode", v, None))
-            v2 = gen_value(ctx.rng, kind, big and i % 40 == 0)
+            v2 = gen_value(ctx.rng, kind, i % 25 == 11)
             try:
                 blob = EC.ENC[kind](v2)
             except ValueError:
@@ -292,7 +293,7 @@ def run(ctx):
     k = 0
     for schema in ALL_SCHEMAS:
         for i in range(per):
-            s = GS.gen_snapshot(ctx.rng, schema, rich=True, hostile_sentinels=False, borderline=False, big=(big and i % 50 == 0))
+            s = GS.gen_snapshot(ctx.rng, schema, rich=True, hostile_sentinels=False, borderline=False, big=(i % 10 == 7))
             upd = i % 3 == 2
             ops = [{"op": "create_temporary", "schema": schema}]
             if upd:
